@@ -26,6 +26,7 @@ type HistoryOpts struct {
 	WithFlips    bool          // authors submit flips between ceremonies
 	Onboard      bool          // identities with invitations invite key holders that have no identity (fresh or terminated), who activate
 	OnlineAtOnce bool          // the Always users go online in the first block after every epoch change (before anybody else can)
+	MoreTypes    bool          // also DeleteFlipTx (of an own flip) and StoreToIpfsTx among the random transactions
 	NoOnline     bool          // nobody ever goes online (the chain stays in god mode: only the god address may propose)
 	MoreFlips    bool          // ... up to the maximum the identity may submit (extra flips of Verified / Human authors)
 	BlockStep    time.Duration // virtual time between blocks (default 20 s)
@@ -169,6 +170,17 @@ func (h *History) OfferTxs(b int) {
 						to := w.Addrs[j]
 						h.try(j, fmt.Sprint("activate", b), &types.Transaction{Type: types.ActivationTx, To: &to, Payload: crypto.FromECDSAPub(&w.Keys[j].PublicKey)})
 					}
+				}
+			}
+		}
+		if h.O.MoreTypes && r.Intn(3) == 0 {
+			i := 1 + r.Intn(nU)
+			if !h.O.Always[i] {
+				if id := A.App.State.GetIdentity(w.Addrs[i]); len(id.Flips) > 0 && r.Intn(2) == 0 {
+					h.try(i, fmt.Sprint("delete-flip", b), &types.Transaction{Type: types.DeleteFlipTx, Payload: attachments.CreateDeleteFlipAttachment(id.Flips[r.Intn(len(id.Flips))].Cid)})
+				} else {
+					c, _ := ipfs.NewMemoryIpfsProxy().Cid([]byte(fmt.Sprint("stored", ep, i, b)))
+					h.try(i, fmt.Sprint("store-ipfs", b), &types.Transaction{Type: types.StoreToIpfsTx, Payload: attachments.CreateStoreToIpfsAttachment(c.Bytes(), uint32(1+r.Intn(100000)))})
 				}
 			}
 		}
